@@ -31,7 +31,7 @@ def step(cfg, hist):
     r.n = 1
     case = dict(cfg, hist=[list(o) for o in hist])
     name = cfg["method"]
-    if obs is not None and obs["op"][0] in ("int", "intT", "intF", "intU"):
+    if obs is not None and obs["op"][0] in ("int", "intT", "intF", "intU", "intE", "intTE"):
         if obs["raised"] == "budget":
             r.v("C03/runaway/%s" % name, "integration to a finite target terminates", case,
                 observed=dict(steps=obs["steps"], t_last=float(a.t[-1]), target=obs["target"], rows=len(a)), expected="about %d steps" % driver.min_steps(obs["t_before"], obs["target"], obs["dt_before"] or 1))
@@ -233,6 +233,16 @@ def run(ctx):
                             acases.append(dict(c, method="SCRIPT:%s:%s:%d=0.5,%d=0.25" % (c["method"], mode, k1, k2)))
         ctx.extra["scripted_answer_runs"] = len(acases)
         grid.pmap(far_case, acases, ctx, section="answers", horizon=90)
+    if not ctx.only or "eta" in ctx.only:
+        # the progress display (eta=True) reads time, target and step at every step: the same runs with it switched on, incl. oversized, tiny and negative steps
+        ecases = []
+        for m in ("RK4Solver", "RK45CKSolver", "ABAs5o6HSolver", "ImplicitMidpoint"):
+            for (t0, tf) in [(-2.0, -0.5), (2.0, 0.5), (-1.0, 1.0), (1.0, -1.0), (0.0, 2.0)]:
+                for dt0 in (0.25, 3.0, -0.25, 2.0 ** -6):
+                    mid = 0.5 * (t0 + tf)
+                    for h in ([["intE"]], [["intTE", mid], ["intE"]], [["intE"], ["intTE", t0]], [["intT", mid], ["dt", 4.0], ["intE"]]):
+                        ecases.append(dict(method=m, dtype="float64", rhs="const", t0=t0, tf=tf, dt0=dt0, far_hist=h))
+        grid.pmap(far_case, ecases, ctx, section="eta", horizon=90)
     if not ctx.only or "shape" in ctx.only:
         scases = []
         for m in ["EulerSolver", "RK4Solver", "RK45CKSolver", "DOPRI45", "ABAs5o6HSolver", "ImplicitMidpoint"] + ([] if ctx.quick else ["RadauIIA5", "RK8713MSolver", "BackwardEuler"]):
